@@ -46,6 +46,27 @@ Example venn_unaligned_chunking_changes_regions :
   venn {| v_xbin := 4; v_ybin := 2; v_nchan := 8; v_chunk := 3 |} [[(3,0)]; [(4,0)]] = Some [0; 0; 1].
 Proof. vm_compute. split; reflexivity. Qed.
 
+(* Conservation for EVERY positive rational chunk size c = cn / cd (chunk_size passed as a float, or the default
+   20 * fs with a non-integer rate): chunk k covers [k c, (k+1) c), these half-open intervals tile the line
+   (in_chunk_q_unique: a sample lies in chunk k iff k = floor(s cd / cn)), and every spike is counted once. *)
+Theorem C20_venn_conserves_rational_chunk :
+  forall (xbin ybin nchan cn cd : Z) (trains : list (list spike)) (res : list Z) (n s : Z),
+  n = Z.of_nat (length trains) -> n = 2 \/ n = 3 -> 0 < cn -> 0 < cd ->
+  (forall t sp, In t trains -> In sp t -> 0 <= fst sp) ->
+  venn_q xbin ybin nchan cn cd trains = Some res -> 0 <= s < n ->
+  (forall k sp, in_chunk_q cn cd k sp = (k =? (fst sp * cd) / cn)) /\
+  Z.of_nat (length res) = 2 ^ n - 1 /\
+  region_sum n s res = Z.of_nat (length (nth (Z.to_nat s) trains [])).
+Proof.
+  intros xbin ybin nchan cn cd trains res n s Hlen Hn Hcn Hcd Hpos H Hs.
+  split; [intros k sp; now apply in_chunk_q_unique|]. now apply (venn_q_conserves xbin ybin nchan cn cd trains res n s).
+Qed.
+Print Assumptions C20_venn_conserves_rational_chunk.
+
+Example venn_rational_chunk_example :   (* chunk size 2.5: boundaries 2.5, 5, 7.5, 10; spikes on floor / ceil of them *)
+  venn_q 2 1 4 5 2 [[(2,0); (3,0); (5,1); (7,2); (8,2); (10,3)]; [(2,0); (5,1); (10,3); (11,3)]] = Some [1; 3; 3].
+Proof. vm_compute. reflexivity. Qed.
+
 (* Whole-dictionary invariance: two chunk sizes that are both multiples of the time bin give the SAME
    region counts (not only the same per-sorter sums), for 2 or 3 sorters and any trains with samples >= 0.
    (For chunk sizes that are not multiples of the bin the counts may differ: example above.) *)
